@@ -1,5 +1,50 @@
 import WuffsVerif.Common.Line
-/-! Line driver for C20 — stub, not built yet. -/
-open WuffsVerif.Line
+import WuffsVerif.Model.Det
+/-! Line driver for C20.  Ops:
+  listdir <dir-hex> <suffix-hex> <0|1> <name-hex>:<d|f> …   -> files=<hex,…|-> dirs=<hex,…|->
+      (entries in the order they were created; the model is `Det.listDir`)
+  topo <qid>:<fieldqid>,<fieldqid>… <qid>: …                 -> ok <i,j,…> | cycle
+      (structs in declaration order, QIDs as numbers; the model is `Det.topoSort`)
+-/
+open WuffsVerif WuffsVerif.Line WuffsVerif.Det
 
-def main : IO Unit := runPure (fun _ => "bad-op")
+def bytesOfHex (s : String) : Option (List Nat) := (fromHex s).map (·.map (·.toNat))
+
+def hexOfBytes (b : List Nat) : String := toHex (b.map (fun n => UInt8.ofNat n))
+
+def showNames (l : List (List Nat)) : String :=
+  if l.isEmpty then "-" else ",".intercalate (l.map hexOfBytes)
+
+def parseEntry (s : String) : Option DirEntry :=
+  match s.splitOn ":" with
+  | [h, "d"] => (bytesOfHex h).map (fun n => ⟨n, true⟩)
+  | [h, "f"] => (bytesOfHex h).map (fun n => ⟨n, false⟩)
+  | _ => none
+
+def parseStruct (s : String) : Option StructDecl :=
+  match s.splitOn ":" with
+  | [q, fs] =>
+    match q.toNat?, (if fs == "" then some [] else (fs.splitOn ",").mapM String.toNat?) with
+    | some q, some fs => some ⟨q, fs⟩
+    | _, _ => none
+  | _ => none
+
+def c20Step (l : List String) : String :=
+  match l with
+  | "listdir" :: dir :: suffix :: sd :: ents =>
+    match bytesOfHex dir, bytesOfHex suffix, ents.mapM parseEntry with
+    | some d, some sfx, some es =>
+      if sd != "0" && sd != "1" then "bad-op" else
+      let r := listDir d sfx (sd == "1") es
+      "files=" ++ showNames r.1 ++ " dirs=" ++ showNames r.2
+    | _, _, _ => "bad-op"
+  | "topo" :: structs =>
+    match structs.mapM parseStruct with
+    | some ns =>
+      match topoSort ns with
+      | some order => "ok " ++ ",".intercalate (order.map toString)
+      | none => "cycle"
+    | none => "bad-op"
+  | _ => "bad-op"
+
+def main : IO Unit := Line.runPure c20Step
